@@ -72,6 +72,11 @@ CHECKS["C20"] = dict(cat="exploration", technique="exhaustive enumeration of MIR
                   "is translated by MIR_module2c in a watchdogged child (non-termination and crashes are attributed to the program), batches of 400 translations are compiled by gcc (a rejected translation is attributed by compiling it alone), and result, buffer bytes and external-call log of the compiled translation "
                   "must equal those of MIR_interp on every input of the program's grid (quick: gcc -O1; thorough: -O0 and -O2).",
              note="gcc -fwrapv -fno-strict-aliasing is the C compiler; (program,input) pairs with behaviour MIR.md leaves unspecified are skipped via refinterp; multiple-result functions, expr data, lref data and calls passing blocks to native C functions are outside the enumerated families", ref="§3 C20")
+CHECKS["C03"] = dict(cat="exploration", technique="exhaustive enumeration of (two-module program, entry-call history) pairs, each history replayed in fresh contexts under all five execution interfaces and compared with MIR_interp",
+             text="For every program of 6 edge kinds (direct call, call through a register, through an address stored in a data item, native callback re-entering MIR code, inline, call in a loop) x 6 target kinds (leaf, self recursion, mutual recursion across modules, label address + jmpi, "
+                  "switch + loop, native call + callback) x 5 signatures (1 int; ints and doubles in registers; stack arguments; narrow ints + float; variadic) and every sequence of up to 4 (thorough 5) calls over its 3 entry points, the history executed through MIR_interp, the interpreter C interface, "
+                  "eager, lazy and lazy basic-block generation (-O0 and -O2; thorough -O0..-O3) must yield the same return values, state data item and native-call log; entry addresses are taken once after linking and used for every later call.",
+             note="MIR_interp is the reference side of the comparison; programs stay inside the enumerated alphabet and do not use property insns", ref="§3 C03")
 NOT_YET = {}
 def main():
     props = [json.loads(l) for l in open(os.path.join(VERIF, "properties.jsonl"))]
